@@ -12,22 +12,30 @@ from . import _quotatree as Q
 
 
 def _mc_configs(ctx):
-    w = ctx.pick(2, 4)
-    quick = [
-        {"cfg": "QuotaTree_mc_cov.cfg", "workers": 1, "coverage": True, "timeout": 900},   # tiny, -coverage 1
-        {"cfg": "QuotaTree_mc_mem.cfg", "workers": w, "timeout": 900},
-        {"cfg": "QuotaTree_mc_cpu2.cfg", "workers": w, "timeout": 900},
-    ]
     if ctx.quick:
-        return quick
-    return quick + [
+        return [
+            {"cfg": "QuotaTree_mc_mem.cfg", "workers": 2, "timeout": 1200},
+            {"cfg": "QuotaTree_mc_cpu2q.cfg", "workers": 2, "timeout": 1200},
+        ]
+    return [
+        {"cfg": "QuotaTree_mc_cov.cfg", "workers": 1, "coverage": True, "timeout": 1700},   # tiny, -coverage 1
+        {"cfg": "QuotaTree_mc_mem.cfg", "workers": 2, "timeout": 1700},
         {"cfg": "QuotaTree_mc_thr.cfg", "workers": 2, "timeout": 1700},
+        {"cfg": "QuotaTree_mc_cpu2.cfg", "workers": 2, "timeout": 1700},
         {"cfg": "QuotaTree_mc_cpu2_n2.cfg", "workers": 2, "timeout": 1700},
-        {"cfg": "QuotaTree_mc_mem5.cfg", "workers": 3, "timeout": 1700},
-        {"cfg": "QuotaTree_mc_memthr4.cfg", "workers": 3, "timeout": 1700},
+        {"cfg": "QuotaTree_mc_mem5.cfg", "workers": 2, "timeout": 1700},
+        {"cfg": "QuotaTree_mc_memthr4.cfg", "workers": 2, "timeout": 1700},
         {"cfg": "QuotaTree_mc_joint3.cfg", "workers": 3, "timeout": 1700},
-        {"cfg": "QuotaTree_mc_cpu3.cfg", "workers": ctx.pick(8, 8), "timeout": 1700, "heap": "8g"},
+        {"cfg": "QuotaTree_mc_cpu3.cfg", "workers": 8, "timeout": 1700, "heap": "8g"},
     ]
+
+
+def _simulate(ctx):
+    sim = tlc.run(ctx, "QuotaTree", "QuotaTree_sim.cfg", simulate={"num": ctx.pick(40, 600), "file": True},
+                  depth=ctx.pick(8, 10), seed=ctx.seed, workers=1, timeout=1200, name="sim")
+    if sim.kind is not None and sim.kind != "invariant":
+        raise InfraError("TLC simulation ended unexpectedly: %s" % sim.summary())
+    return tlc.sim_behaviours(sim)
 
 
 def run(ctx):
@@ -43,31 +51,12 @@ def run(ctx):
     wit_jobs = [(c, p) for c in ("drift-self", "drift-desc", "shadow") for p in wit_paths]
     from concurrent.futures import ThreadPoolExecutor
     Q._locked_subdir(ctx)
-    with ThreadPoolExecutor(max_workers=2) as ex:
-        f_mc = ex.submit(Q.run_model_checks, ctx, _mc_configs(ctx))
-        f_wit = ex.submit(Q.run_witness_searches, ctx, wit_jobs)
-        mcs = f_mc.result()
-        wits = f_wit.result()
-    states = transitions = 0
-    mc_summary = {}
-    cex = []                                     # spec-level counterexamples of the checked invariants
-    for c, res in mcs:
-        states += res.distinct
-        transitions += res.generated
-        mc_summary[c["cfg"]] = {"distinct": res.distinct, "generated": res.generated, "depth": res.depth,
-                                "wall_s": round(res.wall, 1), "ok": res.ok}
-        ctx.log("TLC %s: %s wall=%.0fs" % (c["cfg"], res.summary(), res.wall))
-        if not res.ok:
-            if res.kind == "invariant" and res.trace:
-                cex.append((c["cfg"], res.name, Q.ops_of_behaviour(res.trace)))
-            else:
-                raise InfraError("TLC run %s ended unexpectedly: %s" % (c["cfg"], res.summary()))
-    cov = {}
-    for c, res in mcs:
-        if c.get("coverage"):
-            cov[c["cfg"]] = Q.action_coverage(res)     # vacuity guard (raises InfraError)
+    pool = ThreadPoolExecutor(max_workers=3)
+    f_mc = pool.submit(Q.run_model_checks, ctx, _mc_configs(ctx))
+    f_wit = pool.submit(Q.run_witness_searches, ctx, wit_jobs)
+    f_sim = pool.submit(_simulate, ctx)
 
-    # ---------------- 2. conformance: drive the real code
+    # ---------------- 2. conformance: drive the real code (while TLC works on the design part)
     tdir = ctx.subdir("traces")
     files = {}
     stats = {}
@@ -91,12 +80,46 @@ def run(ctx):
                                  VERIF_LEN=8, VERIF_ENUM_BUDGET=ctx.pick(2500, 40000), VERIF_MAXGROUPS=4,
                                  VERIF_MAXDEPTH=3, VERIF_MAXROOTS=1, VERIF_MEMVALS="[0,2]", VERIF_THRVALS="[2]",
                                  VERIF_CNTVALS="[0,1,2]", VERIF_PCTVALS="[0,50,100]", VERIF_CORES=2))
-    # 2c T->I: TLC -simulate behaviours, the witnesses of the deviation classes and any spec counterexample
-    sim = tlc.run(ctx, "QuotaTree", "QuotaTree_sim.cfg", simulate={"num": ctx.pick(40, 600), "file": True},
-                  depth=ctx.pick(8, 10), seed=ctx.seed, workers=1, timeout=900, name="sim")
-    if sim.kind is not None and sim.kind != "invariant":
-        raise InfraError("TLC simulation ended unexpectedly: %s" % sim.summary())
-    beh = tlc.sim_behaviours(sim)
+    # the statement violations and refused-but-changed observations of these runs do not need TLC at all
+    early = {k: common.read_ndjson(p) for k, p in files.items()}
+    ctx.log("driver stats so far: %s; real statement violations so far: %d"
+            % (stats, sum(len(Q.real_violations(r)) for r in early.values())))
+
+    mcs = f_mc.result()
+    wits = f_wit.result()
+    beh = f_sim.result()
+    pool.shutdown()
+    states = transitions = 0
+    cov = {}
+    mc_summary = {}
+    cex = []                                     # spec-level counterexamples of the checked invariants
+    for c, res in mcs:
+        states += res.distinct
+        transitions += res.generated
+        mc_summary[c["cfg"]] = {"distinct": res.distinct, "generated": res.generated, "depth": res.depth,
+                                "wall_s": round(res.wall, 1), "ok": res.ok}
+        ctx.log("TLC %s: %s wall=%.0fs" % (c["cfg"], res.summary(), res.wall))
+        if not res.ok:
+            if res.kind == "invariant" and res.trace:
+                cex.append((c["cfg"], res.name, Q.ops_of_behaviour(res.trace)))
+            else:
+                raise InfraError("TLC run %s ended unexpectedly: %s" % (c["cfg"], res.summary()))
+    for c, res in mcs:
+        if c.get("coverage"):
+            cov[c["cfg"]] = Q.action_coverage(res)     # vacuity guard (raises InfraError)
+
+    # ---------------- 2c. T->I: TLC -simulate behaviours, the witnesses of the deviation classes, spec counterexamples
+    sim_actions = {}
+    for bh in beh:
+        for st in bh[1:]:
+            la = st["vars"]["last"]
+            k = ("NewGroup" if la["g"] == 0 else "NewSubGroup") if la["op"] == "new" else \
+                ("UpdateDirect" if la["path"] == "direct" else "UpdateMerged")
+            sim_actions[k] = sim_actions.get(k, 0) + 1
+    missing = [a for a in ("NewGroup", "NewSubGroup", "UpdateDirect", "UpdateMerged") if not sim_actions.get(a)]
+    if missing:
+        raise InfraError("vacuity guard: spec action(s) never taken in the TLC simulation: %s" % missing)
+    cov["simulation(QuotaTree_sim.cfg)"] = sim_actions
     replay_cases = []
     for i, b in enumerate(beh):
         ops = Q.ops_of_behaviour(b)
@@ -124,7 +147,11 @@ def run(ctx):
             p = os.path.join(tdir, "chunk_%s_%d.ndjson" % (k, j))
             common.write_ndjson(p, rs)
             chunks.append((k, p, rs))
-    tvs = Q.validate_files(ctx, [p for _, p, _ in chunks], timeout=ctx.pick(900, 1700))
+    pool = ThreadPoolExecutor(max_workers=2)
+    f_neg = pool.submit(_negative_binding_control, ctx, rows["random"], tdir)
+    tvs = Q.validate_files(ctx, [p for _, p, _ in chunks], timeout=ctx.pick(1200, 1700))
+    neg = f_neg.result()
+    pool.shutdown()
     n_traces = 0
     n_lines = 0
     rejected_cases = set()
@@ -201,7 +228,7 @@ def run(ctx):
                              % (inv, cfg, Q.fmt_ops(ops)))
 
     # ---------------- 5. binding self-test: a corrupted recorded field must be rejected at that line
-    neg = _negative_binding_control(ctx, rows["random"], tdir)
+    # (done concurrently with step 3: `neg`)
 
     # ---------------- 6. vacuity / coverage measured on the real executions
     all_ops = [r for k in rows for r in rows[k] if r["ev"] == "Op"]
